@@ -434,6 +434,7 @@ def check_sq(run, pkg):
                     okq = ok_ if not trq.atoms else (True if ok_ else None)
         run.ob("R-ALG", fq, f"{kind}:q", okq, "wave vectors are integer vectors x 2 pi / L axis by axis; the q column is their row norm", show(Q)[:100] if Q else "?",
                witness=None if okq else "q != 2 pi n / L (per axis)", loc=loc_of(it, st["q"]) if "q" in st else fi.loc(), sound=True)
+        q_components(run, it, fq, kind, Q)
         if "Sq" not in st or Q is None:
             run.ob("R-ALG", fq, f"{kind}:Sq", None, "Sq column assigned", "not found", loc=fi.loc())
             continue
@@ -575,3 +576,21 @@ def check_sq(run, pkg):
                    show(ave)[:90], witness=None if okround and okave else wit_av, loc=fi.loc(), sound=True)
         else:
             run.ob("R-ORDER", fq, f"{kind}:average", None, "(table, average) returned", show(ret)[:80], loc=fi.loc())
+
+
+def q_components(run, it, fq, kind, Q, rule="R-ALG"):
+    """the component columns q0..q{d-1} of the returned table hold the same (scaled) wave vector whose row norm is the q column"""
+    fi = it.fi
+    comp = [e for e in it.events if e.kind == "assign" and e.data["value"][0] == "call" and e.data["value"][1] == "pandas.DataFrame" and e.data["value"][2]
+            and any(x[0] == "fstr" and x[1] and x[1][0] == C("q") for x in walk(kw(e.data["value"], "columns", 1) or NONE))]
+    if len(comp) != 1 or Q is None:
+        run.ob(rule, fq, f"{kind}:q-components", None, "component columns of the wave vector found", f"{len(comp)} candidate frames", loc=fi.loc())
+        return
+    X = comp[0].data["value"][2][0]
+    ok = True if X == Q else None
+    x0 = X[2][0] if X[0] == "call" and X[1] == ".astype" and X[2] else X
+    if ok is None and x0 == ("sym", "qvector") and Q != X and any(x[0] == "attr" and x[2] == "boxlength" for x in walk(Q)):
+        ok = False      # the raw integer indices next to the norm of the scaled vector
+    run.ob(rule, fq, f"{kind}:q-components", ok, "columns q0..q{d-1} hold the wave vector 2 pi n / L whose row norm is the q column (q_k / q is the unit vector)", show(X)[:80],
+           witness=None if ok else "columns q_k hold the integer indices n_k while q = |2 pi n / L|: in a 10 x 16 box n = (-3, 2) gives q = (-1.885, 0.785) but (q_0, q_1) = (-3, 2) - "
+                                   "another direction unless the box is square / cubic", loc=loc_of(it, comp[0]), sound=True)
